@@ -92,6 +92,20 @@ def run(ctx):
                 F = gen_F(rng, n, rng.uniform(0.2, 0.9), shape, 1e-3 * (1 + 1e-9))
                 for sv in ([0] * n, [1] * n, [rng.randint(0, 1) for _ in range(n)]):
                     cases.append({"fn": "completion", "coefs": [hexf(x) for x in F], "coef_type": "F", "seed": sv, "shape": shape, "timeout": 120})
+        # directed: exactly-zero extreme coefficients (raise, or return an element whose identity part is this very F), and tiny
+        # extremes with a tight tol (G then has genuinely tiny coefficients)
+        for F in ([0.0, 0.3, 0.4], [0.2, 0.1, 0.0], [0.0, 0.5, 0.0], [0.0, 0.0, 0.3, -0.2], [0.1, -0.3, 0.2, 0.0, 0.0], [0.0, 0.25]):
+            for sv in ([0] * (len(F) - 1), [1] * (len(F) - 1)):
+                cases.append({"fn": "completion", "coefs": [hexf(x) for x in F], "coef_type": "F", "seed": sv, "shape": "zero-extreme",
+                              "as_list": rng.random() < 0.5, "timeout": 120})
+        for n in ([4, 6] if quick else [3, 4, 5, 6, 8]):
+            for rep in range(2 if quick else 6):
+                F = gen_F(rng, n, rng.uniform(0.5, 0.9), rng.choice(["generic", "sym"]), None)
+                F[0] = rng.choice([-1, 1]) * rng.uniform(2e-5, 8e-5)
+                F[-1] = rng.choice([-1, 1]) * rng.uniform(2e-5, 8e-5)
+                for sv in Q.seed_vectors(rng, n, 6 if quick else 16):
+                    cases.append({"fn": "completion", "coefs": [hexf(x) for x in F], "coef_type": "F", "seed": sv, "tol": hexf(1e-10),
+                                  "shape": "tiny-extremes/tight-tol", "timeout": 120})
         # outside the family: other tolerances, larger n, unbounded F, tiny extremes
         for j in range(80 if quick else 1200):
             n = rng.choice([rng.randint(1, 12), rng.randint(1, 12), 16, 24, 1, 2, 3])
